@@ -33,7 +33,9 @@ class Oracle:
         for rec in calls:
             if is_killish(rec) and rec['live'] and rec['raised'] is not None:
                 w.violate('a:kill-raises', features(w, rec, raised=rec['raised']), repr(rec['raised']))
-        first = next((r for r in calls if is_killish(r) and r['live'] and r['raised'] is None
+        # (a request whose pending action was cancelled again by whoever made it - op 'unask' - is withdrawn and promises
+        #  nothing; that the process stays controllable afterwards is what clauses (b) for later kills and (f) check)
+        first = next((r for r in calls if is_killish(r) and r['live'] and r['raised'] is None and not r.get('withdrawn')
                       and not (r['op'] == 'cancel' and r['ret'] != ('value', True))), None)
         w.result.nontrivial = first is not None and first['state'] != ProcessState.CREATED
         if first is not None:
@@ -63,7 +65,7 @@ class Oracle:
         if not w.live():
             killed = proc.state == ProcessState.KILLED
             for rec in calls:
-                if rec['op'] != 'kill' or not rec['live'] or rec['raised'] is not None:
+                if rec['op'] != 'kill' or not rec['live'] or rec['raised'] is not None or rec.get('withdrawn'):
                     continue
                 final = ctl.fut_status(rec['obj'])
                 resolved_true = final in (('value', True), ('result', True))
@@ -73,7 +75,7 @@ class Oracle:
                     w.violate('c:kill-result-true-but-not-killed', features(w, rec, end=str(proc.state)), None)
             # (d) the kill text is recorded
             if killed:
-                texts = {r['args'][0] for r in calls if r['op'] == 'kill' and r['live'] and r['args']}
+                texts = {r['args'][0] for r in calls if r['op'] == 'kill' and r['live'] and r['args'] and not r.get('withdrawn')}
                 if program_has_killcmd:
                     texts.add(programs.KILLCMD_TEXT)
                 msg = proc.killed_msg()
@@ -129,7 +131,7 @@ def features(w: ctl.World, rec: Any, **extra: Any) -> Dict[str, Any]:
 
 # ---------------------------------------------------------------------------------------------------------------------
 
-ALPHABET = (('kill', 't1'), ('kill', 't2'), ('pause',), ('play',), ('resume', 'v1'), ('cancel',))
+ALPHABET = (('kill', 't1'), ('kill', 't2'), ('pause',), ('play',), ('resume', 'v1'), ('cancel',), ('unask',))
 LISTENER_SCRIPTS = tuple((ev, n, op) for ev in ('running', 'waiting', 'paused', 'played')
                          for n in (1, 2) for op in (('kill', 't1'),))
 
@@ -167,7 +169,7 @@ def units_for(tier: str) -> List[Any]:
     return units
 
 
-WC_ALPHABET = (('kill', 't1'), ('kill', 't2'), ('pause',), ('play',), ('cancel',))
+WC_ALPHABET = (('kill', 't1'), ('kill', 't2'), ('pause',), ('play',), ('cancel',), ('unask',))
 
 
 def wc_cfg(unit: Any) -> ctl.Config:
